@@ -22,6 +22,23 @@ CLAIMED = {
         note="Modelled not verified: CPython weakref death (explicit kill op), fnmatch restricted to literals/*/?; exception classes mapped to an enum.",
         technique="Lean 4 proof (invariant induction over ops and fuel) + model/implementation correspondence",
     ),
+    "C20": dict(
+        text=("Machine-checked Lean 4 theorems about an executable model of UnicodeData.sortGlyphNames (block recursion over nested "
+              "lists, flattening, all 10 public and 5 private sort methods incl. the canned design sort, with every font/Unicode "
+              "look-up and every module constant as a parameter): for ALL look-up functions, name lists (duplicates, names outside "
+              "the font) and descriptor lists the result never holds a name more often than the input (unconditional), and is a "
+              "permutation of the input whenever the look-up sorts meet only tags of their ordered table (unconditional for the "
+              "table-free types); the remaining case - sort type 'block' drops names without a block - is kept as the full "
+              "statement, a _violated witness and KNOWN-FINDING F21a. The model is tied to the code by regenerated tables "
+              "(constants, type->method dispatch, canned descriptor lists) and a differential run on ORDERED results; determinism, "
+              "input/descriptor/font immutability and exception freedom are judged by a direct oracle on the real calls."),
+        design="DESIGN.md section 5 (C20)",
+        note=("Modelled not verified: Python str.lower()/isdigit() as ASCII (only affects grouping inside weightedSuffix, not the "
+              "permutation theorem); the look-ups are tabulated per case from the real UnicodeData; script/category coverage of the "
+              "ordered tables is enumerated over all 0x110000 code points by the extractor on every run. The container-partner "
+              "pass is the one repaired by repo_fixes/C20-container-partners.diff."),
+        technique="Lean 4 proof (permutation/sub-multiset lemmas per method, structural induction over nested blocks, regenerated-table obligations) + model/implementation correspondence",
+    ),
 }
 
 NOT_YET = {}
